@@ -866,6 +866,132 @@ def followups(ctx, sc, h, res, nstd, stats, all_pats):
 KEYMODES = ["nocfg", "nogo", "novet", "nofiles"]
 
 
+# ---------------------------------------------------------------------------------------------
+# External lint target (CacheKeyExt.tla): a package of a replaced module, named by import path
+# ---------------------------------------------------------------------------------------------
+
+EXT_FILES = {
+    "main/go.mod": "module ex.test/t4e\n\ngo 1.22\n\nrequire ex.test/xmod v0.0.0\n\nreplace ex.test/xmod => ../xmod\n",
+    "main/m/m.go": "// Package m uses x.\npackage m\n\nimport \"ex.test/xmod/x\"\n\n// UseFoo uses both functions of x.\nfunc UseFoo() int { return x.MakeFoo() + x.Old() }\n",
+    "xmod/go.mod": "module ex.test/xmod\n\ngo 1.22\n",
+}
+EXT_X = {1: "// Package x is the external lint target.\npackage x\n\n// MakeFoo makes a foo.\nfunc MakeFoo() int { return 1 }\n\n// Old is the old way.\nfunc Old() int { return 2 }\n",
+         2: "// Package x is the external lint target.\npackage x\n\n// MakeFoo makes a foo.\nfunc MakeFoo() int { return 1 }\n\n// Old is the old way.\n//\n// Deprecated: use MakeFoo.\nfunc Old() int { return 2 }\n\n// Same compares a value with itself.\nfunc Same(a int) bool { return a == a }\n"}
+EXT_CONF = 'initialisms = ["inherit", "FOO"]\n'
+EXT_PAT = {"x": "ex.test/xmod/x", "m": "./m"}
+
+
+def ext_ids(lines):
+    ids = set()
+    for l in lines:
+        try:
+            o = json.loads(l)
+        except Exception:
+            ids.add("?unparsed")
+            continue
+        f = o.get("location", {}).get("file", "")
+        unit = "x" if "/xmod/" in f else ("m" if "/main/" in f else "?")
+        ids.add("%s.%s" % (unit, o.get("code", "").lower()))
+    return ids
+
+
+def ext_run_history(sc, root, h):
+    """One history of CacheKeyExt.tla on a fresh two-module tree: every Run is executed with the shared cache and
+    with an empty cache."""
+    for rel, text in EXT_FILES.items():
+        pth = os.path.join(root, rel)
+        os.makedirs(os.path.dirname(pth), exist_ok=True)
+        open(pth, "w").write(text)
+    os.makedirs(os.path.join(root, "xmod", "x"), exist_ok=True)
+    open(os.path.join(root, "xmod", "x", "x.go"), "w").write(EXT_X[1])
+    cache = os.path.join(root, "cache")
+    os.makedirs(cache)
+    out = []
+    ncold = 0
+    for si, a in enumerate(h):
+        if a["act"] == "EditX":
+            open(os.path.join(root, "xmod", "x", "x.go"), "w").write(EXT_X[a["v"]])
+        elif a["act"] in ("SetXConf", "SetMConf"):
+            pth = os.path.join(root, "xmod" if a["act"] == "SetXConf" else "main", "staticcheck.conf")
+            if a["v"] == "opt":
+                open(pth, "w").write(EXT_CONF)
+            elif os.path.exists(pth):
+                os.remove(pth)
+        elif a["act"] == "Run":
+            argv = [sc, "-f", "json", "-checks", "ST1003,SA4000,SA1019"] + [EXT_PAT[t] for t in sorted(a["t"])]
+            res = []
+            for which in ("warm", "cold"):
+                cdir = cache
+                if which == "cold":
+                    ncold += 1
+                    cdir = os.path.join(root, "cold%d" % ncold)
+                    os.makedirs(cdir)
+                env = vlib.go_env({"STATICCHECK_CACHE": cdir})
+                for k in ("GODEBUG", "VERIF_TRACE", "VERIF_TRACE_RUNNER", "VERIF_YIELD_SEED"):
+                    env.pop(k, None)
+                rc, so, se = vlib.sh(argv, cwd=os.path.join(root, "main"), env=env, timeout=900)
+                if rc not in (0, 1):
+                    raise Inconclusive("staticcheck failed on the external-target fixture rc=%d argv=%s\n%s" % (rc, argv[1:], se[-1200:]))
+                res.append(sorted(l for l in so.splitlines() if l.strip()))
+            out.append({"step": si, "targets": sorted(a["t"]), "warm": res[0], "cold": res[1], "want": sorted(a["want"]), "argv": argv[1:]})
+    shutil.rmtree(root, ignore_errors=True)
+    return out
+
+
+def ext_target_scenario(ctx, sc):
+    """TLC enumerates the histories of CacheKeyExt.tla (Transparent holds on the model; the key that forgets the
+    external package's configuration is refuted); a seeded cover of them is replayed on a real two-module tree:
+    every run through the shared cache must print what a run with an empty cache prints."""
+    r = vlib.run_tlc(ctx, "CacheKeyExt", "CacheKeyExt.cfg", workers=2, timeout=900)
+    vlib.tlc_require_ok(r, "CacheKeyExt invariants")
+    neg = vlib.run_tlc(ctx, "CacheKeyExt", "CacheKeyExt_noxconf.cfg", workers=2, timeout=900)
+    if neg.violated != "Transparent":
+        raise Inconclusive("negative control: a key without the external package's configuration did not violate Transparent (%s)" % neg.violated)
+    hists = [h for h in r.cases if isinstance(h, list)]
+    if len(hists) < 100:
+        raise Inconclusive("CacheKeyExt emitted only %d histories" % len(hists))
+    # a history is interesting when a run follows an edit / configuration change that follows a run
+    def score(h):
+        acts = [a["act"] for a in h]
+        runs = [i for i, a in enumerate(acts) if a == "Run"]
+        mid = sum(1 for i, a in enumerate(acts) if a != "Run" and runs and runs[0] < i < runs[-1])
+        # a change of one unit's configuration or source between two runs that print that unit
+        def between(act, unit):
+            idx = [i for i in runs if unit in h[i]["t"]]
+            return any(acts[j] == act for a, b in zip(idx, idx[1:]) for j in range(a + 1, b))
+        aimed = sum((between("SetXConf", "x"), between("SetMConf", "m"), between("EditX", "x"), between("EditX", "m"), between("SetMConf", "x")))
+        return (len(runs) >= 2, aimed, mid, len(h))
+    hists.sort(key=lambda h: json.dumps(h, sort_keys=True))
+    ctx.rng.shuffle(hists)
+    hists.sort(key=score, reverse=True)
+    chosen = hists[:(24 if ctx.quick else 400)]
+    stats = {"histories": len(chosen), "runs": 0, "nonempty": 0, "model_mismatch": 0, "states": r.distinct, "generated": r.generated,
+             "emitted": len(hists)}
+    base = ctx.tmp("ext")
+
+    def one(hi):
+        return hi, ext_run_history(sc, os.path.join(base, "h%04d" % hi), chosen[hi])
+    for hi, out in vlib.pmap(one, range(len(chosen)), workers=6):
+        for o in out:
+            stats["runs"] += 1
+            stats["nonempty"] += bool(o["cold"])
+            if o["warm"] != o["cold"]:
+                only_w = [l for l in o["warm"] if l not in o["cold"]]
+                only_c = [l for l in o["cold"] if l not in o["warm"]]
+                ctx.violation(vlib.canon_key({"ext": [[a["act"], a["v"], sorted(a["t"])] for a in chosen[hi]], "step": o["step"]}),
+                              "external lint target: run %d of the history prints %d line(s) only with the warm cache and %d only with a cold cache (targets %s; e.g. %s)"
+                              % (o["step"], len(only_w), len(only_c), o["targets"], (only_w + only_c)[0][:200]),
+                              {"kind": "ext-history", "hist": chosen[hi], "observed": o})
+            elif sorted(ext_ids(o["cold"])) != o["want"]:
+                stats["model_mismatch"] += 1
+    if stats["model_mismatch"]:
+        ctx.note("external-target scenario: %d cold run(s) print something else than CacheKeyExt.tla's Cold() (fixture/model drift, not a verdict)" % stats["model_mismatch"])
+    if not stats["nonempty"]:
+        raise Inconclusive("external-target scenario: no run printed a problem (vacuous)")
+    return stats
+
+
+
 def cfg_text(name, **subst):
     txt = open(os.path.join(vlib.SPECS, name)).read()
     for k, v in subst.items():
@@ -884,6 +1010,11 @@ def run(ctx):
     if ctx.replay:
         doc = json.load(open(ctx.replay))
         h = doc["case"]["hist"]
+        if doc["case"].get("kind") == "ext-history":
+            for o in ext_run_history(sc, os.path.join(ctx.tmp("ext-replay"), "h"), h):
+                if o["warm"] != o["cold"]:
+                    ctx.violation(doc["key"], doc["what"], {"kind": "ext-history", "hist": h, "observed": o})
+            return
         res = replay(sc, ctx.tmp("replay"), h, {"module": 0, "old": 0}, model=False)
         for v in res["viol"]:
             ctx.violation(doc["key"], doc["what"], {"kind": "history", "hist": h, "abstract": abstract(h), "observed": v})
@@ -1041,14 +1172,16 @@ def run(ctx):
     vlib.tlc_require_ok(static["r"], "KeyCoversDeps (static)")
     tlc_runs.append(("MCCacheKey_static.cfg", static["r"]))
 
+    ext = ext_target_scenario(ctx, sc)
+
     if stats["drift"]:
         ctx.note("conformance drift (model != code, not a violation): %d item(s); first: %s"
                  % (len(stats["drift"]), json.dumps(stats["drift"][0], sort_keys=True)[:600]))
     sample_h = chosen[len(chosen) // 2]
     ctx.coverage = {
-        "states": sum(r.distinct for _, r in tlc_runs),
-        "transitions": sum(r.generated for _, r in tlc_runs),
-        "traces_validated_against_impl": n_done,
+        "states": sum(r.distinct for _, r in tlc_runs) + ext["states"],
+        "transitions": sum(r.generated for _, r in tlc_runs) + ext["generated"],
+        "traces_validated_against_impl": n_done + ext["histories"],
         "exhaustive": False,
         "tlc": [{"config": n, "distinct": r.distinct, "generated": r.generated, "cases": len(r.cases), "wall_s": round(r.wall, 1)}
                 for n, r in tlc_runs],
@@ -1073,6 +1206,7 @@ def run(ctx):
         "drift_count": len(stats["drift"]),
         "extra_real_misses_after_reanalysis(vetx bytes unordered)": stats["extra_misses"],
         "negative_selftest": neg,
+        "external_lint_target(CacheKeyExt.tla)": ext,
         "runner_hooks_present": bool(hooks),
         "histories_with_hook_layer(per-unit hit/miss from VERIF_TRACE_RUNNER)": stats["hook_histories"],
         "key_tuple_observations_compared": stats["key_obs"],
